@@ -351,7 +351,9 @@ func cmdCheck(args []string) int {
 	}
 	for _, ob := range obls {
 		if ob.Cover {
-			if strings.Contains(ob.Name, "/cover(antecedent(") && antecedentAlive[antecedentKey(ob)] {
+			if strings.Contains(ob.Name, "/cover(antecedent(") && (antecedentAlive[antecedentKey(ob)] || strings.Contains(ob.Fn, "[")) {
+				// (an instance of a generic function: the clause may be meant for other type arguments, and the
+				// other instances need not be part of this property's check)
 				if ob.Result.Status != "sat" {
 					coverUnconfirmed++
 				}
